@@ -2,3 +2,498 @@
 From Coq Require Import List Ascii Bool Arith ZArith Lia.
 From PV Require Import Replace ReplaceProofs Yaml.
 Import ListNotations.
+
+(* ---------- dictionaries ---------- *)
+Lemma assoc_set {V} : forall (m : list (str * V)) k k' v, assoc k (set_assoc k' v m) = if str_eqb k k' then Some v else assoc k m.
+Proof.
+  induction m as [|[k0 v0] m IH]; intros k k' v; cbn [set_assoc assoc]; [reflexivity|].
+  destruct (str_eqb k' k0) eqn:E0; cbn [assoc].
+  - apply str_eqb_eq in E0. subst k0. destruct (str_eqb k k'); reflexivity.
+  - rewrite IH. destruct (str_eqb k k') eqn:E; [|reflexivity]. apply str_eqb_eq in E. subst k'. now rewrite E0.
+Qed.
+
+(* ---------- syntactic equality tests decide equality ---------- *)
+Lemma list_eqb_eq {A} (e : A -> A -> bool) (He : forall x y, e x y = true -> x = y) : forall a b, list_eqb e a b = true -> a = b.
+Proof.
+  induction a as [|x a IH]; intros [|y b] H; cbn in H; try discriminate; [reflexivity|].
+  apply andb_prop in H as [H1 H2]. f_equal; auto.
+Qed.
+Lemma list_eqb_refl {A} (e : A -> A -> bool) (He : forall x, e x x = true) : forall a, list_eqb e a a = true.
+Proof. induction a as [|x a IH]; cbn; [reflexivity|]. now rewrite He, IH. Qed.
+Lemma str_eqb_true a b : str_eqb a b = true -> a = b.
+Proof. apply str_eqb_eq. Qed.
+Lemma pair_eqb_eq {A B} ea eb (Ha : forall x y : A, ea x y = true -> x = y) (Hb : forall x y : B, eb x y = true -> x = y) :
+  forall p q, pair_eqb ea eb p q = true -> p = q.
+Proof. intros [a b] [a' b'] H. unfold pair_eqb in H. cbn in H. apply andb_prop in H as [H1 H2]. f_equal; auto. Qed.
+Lemma pair_eqb_refl {A B} (ea : A -> A -> bool) (eb : B -> B -> bool) (Ha : forall x, ea x x = true) (Hb : forall x, eb x x = true) :
+  forall p, pair_eqb ea eb p p = true.
+Proof. intros [a b]. unfold pair_eqb. cbn. now rewrite Ha, Hb. Qed.
+Lemma vspec_eqb_eq a b : vspec_eqb a b = true -> a = b.
+Proof.
+  destruct a as [t x], b as [t' x']. unfold vspec_eqb. cbn. intro H. apply andb_prop in H as [H1 H2].
+  apply Z.eqb_eq in H2. subst. destruct t, t'; cbn in H1; congruence.
+Qed.
+Lemma vspec_eqb_refl a : vspec_eqb a a = true.
+Proof. destruct a as [t x]. unfold vspec_eqb. cbn. rewrite Z.eqb_refl. now destruct t. Qed.
+Lemma opt_eqb_eq {A} (e : A -> A -> bool) (He : forall x y, e x y = true -> x = y) a b : opt_eqb e a b = true -> a = b.
+Proof. destruct a, b; cbn; intro H; try discriminate; [f_equal; auto|reflexivity]. Qed.
+Lemma opt_eqb_refl {A} (e : A -> A -> bool) (He : forall x, e x x = true) a : opt_eqb e a a = true.
+Proof. destruct a; cbn; auto. Qed.
+Lemma zpair_eq p q : pair_eqb str_eqb Z.eqb p q = true -> p = q.
+Proof. apply pair_eqb_eq; [apply str_eqb_true|]. intros x y H. now apply Z.eqb_eq. Qed.
+Lemma sedge_eqs_eq a b : sedge_eqs a b = true -> a = b.
+Proof.
+  destruct a as [[[s1 t1] k1] a1], b as [[[s2 t2] k2] a2]. cbn. intro H.
+  apply andb_prop in H as [H H4]. apply andb_prop in H as [H H3]. apply andb_prop in H as [H1 H2].
+  apply str_eqb_true in H1, H2. apply (opt_eqb_eq _ str_eqb_true) in H3. apply (list_eqb_eq _ zpair_eq) in H4. now subst.
+Qed.
+Lemma sedge_eqs_refl a : sedge_eqs a a = true.
+Proof.
+  destruct a as [[[s1 t1] k1] a1]. cbn. rewrite !str_eqb_refl, (opt_eqb_refl _ str_eqb_refl). cbn.
+  apply list_eqb_refl. apply pair_eqb_refl; [apply str_eqb_refl|apply Z.eqb_refl].
+Qed.
+Lemma entry_eqs_eq a b : entry_eqs a b = true -> a = b.
+Proof.
+  destruct a, b; cbn; intro H; try discriminate.
+  - apply andb_prop in H as [H1 H2]. apply (list_eqb_eq _ str_eqb_true) in H1.
+    apply (list_eqb_eq _ (pair_eqb_eq _ _ str_eqb_true vspec_eqb_eq)) in H2. now subst.
+  - apply andb_prop in H as [H1 H2]. apply Bool.eqb_prop in H1. apply (list_eqb_eq _ str_eqb_true) in H2. now subst.
+  - apply andb_prop in H as [H H3]. apply andb_prop in H as [H1 H2].
+    apply (list_eqb_eq _ (pair_eqb_eq _ _ str_eqb_true str_eqb_true)) in H1, H2. apply (list_eqb_eq _ sedge_eqs_eq) in H3. now subst.
+Qed.
+Lemma entry_eqs_refl a : entry_eqs a a = true.
+Proof.
+  destruct a; cbn.
+  - rewrite (list_eqb_refl _ str_eqb_refl). cbn. apply list_eqb_refl. apply pair_eqb_refl; [apply str_eqb_refl|apply vspec_eqb_refl].
+  - rewrite Bool.eqb_reflx. cbn. apply list_eqb_refl, str_eqb_refl.
+  - rewrite !(list_eqb_refl _ (pair_eqb_refl _ _ str_eqb_refl str_eqb_refl)). cbn. apply list_eqb_refl, sedge_eqs_refl.
+Qed.
+
+(* ---------- the store under the no-rename guard ---------- *)
+Definition consistentP (E : list (str * entry)) : Prop := forall k d d', In (k, d) E -> In (k, d') E -> d = d'.
+Lemma consistent_P E : consistent E = true -> consistentP E.
+Proof.
+  unfold consistent. intros H k d d' H1 H2. rewrite forallb_forall in H. specialize (H _ H1). rewrite forallb_forall in H.
+  specialize (H _ H2). cbn [fst snd] in H. rewrite str_eqb_refl in H. cbn in H. now apply entry_eqs_eq.
+Qed.
+
+Definition Inv (st : store) (E : list (str * entry)) : Prop := forall k d, assoc k st = Some d -> In (k, d) E.
+Definition ext (st st' : store) : Prop := forall k x, assoc k st = Some x -> assoc k st' = Some x.
+Definition holds (st : store) (es : list (str * entry)) : Prop := forall k d, In (k, d) es -> assoc k st = Some d.
+
+Lemma ext_refl st : ext st st. Proof. intros k x H; exact H. Qed.
+Lemma ext_trans a b c : ext a b -> ext b c -> ext a c. Proof. intros H1 H2 k x H. auto. Qed.
+Lemma holds_ext st st' es : holds st es -> ext st st' -> holds st' es. Proof. intros H He k d Hi. auto. Qed.
+Lemma holds_app st a b : holds st a -> holds st b -> holds st (a ++ b).
+Proof. intros Ha Hb k d Hi. apply in_app_or in Hi as [Hi|Hi]; auto. Qed.
+Lemma holds_nil st : holds st []. Proof. intros k d []. Qed.
+
+Section Guarded.
+  Variable E : list (str * entry).
+  Hypothesis HE : consistentP E.
+
+  Lemma add_ok name d st : Inv st E -> In (name, d) E ->
+    exists st', add_to_dict name d st = (name, st') /\ Inv st' E /\ ext st st' /\ assoc name st' = Some d.
+  Proof.
+    intros HI Hin. exists (set_assoc name d st). split; [|split; [|split]].
+    - unfold add_to_dict. destruct (assoc name st) as [d'|] eqn:Ea; [|reflexivity].
+      rewrite (HE _ _ _ (HI _ _ Ea) Hin), entry_eqs_refl. reflexivity.
+    - intros k x. rewrite assoc_set. destruct (str_eqb k name) eqn:Ek; [|apply HI].
+      apply str_eqb_eq in Ek. subst k. intro H. injection H as <-. exact Hin.
+    - intros k x H. rewrite assoc_set. destruct (str_eqb k name) eqn:Ek; [|exact H].
+      apply str_eqb_eq in Ek. subst k. f_equal. exact (HE _ _ _ Hin (HI _ _ H)).
+    - rewrite assoc_set, str_eqb_refl. reflexivity.
+  Qed.
+
+  Definition ops_entries (l : list (opT * upd)) : list (str * entry) := map (fun ou => (o_name (fst ou), op_entry (fst ou) (snd ou))) l.
+
+  Lemma dump_ops_ok : forall l st, Inv st E -> incl (ops_entries l) E ->
+    exists st', dump_ops l st = (map (fun ou => o_name (fst ou)) l, st') /\ Inv st' E /\ ext st st' /\ holds st' (ops_entries l).
+  Proof.
+    induction l as [|[op u] l IH]; intros st HI Hin.
+    - exists st. repeat split; auto using ext_refl, holds_nil.
+    - cbn [dump_ops]. unfold dump_op.
+      destruct (add_ok (o_name op) (op_entry op u) st HI) as (st1 & E1 & I1 & X1 & A1); [apply Hin; now left|].
+      rewrite E1. destruct (IH st1 I1) as (st2 & E2 & I2 & X2 & H2); [intros x Hx; apply Hin; now right|].
+      rewrite E2. exists st2. repeat split; auto.
+      + eapply ext_trans; eassumption.
+      + intros k d [Hk|Hk]; [injection Hk as <- <-; now apply X2|now apply H2].
+  Qed.
+
+  Lemma dump_node_ok b nd st : Inv st E -> incl (node_entries b nd) E ->
+    exists st', dump_node b nd st = (n_name nd, st') /\ Inv st' E /\ ext st st' /\ holds st' (node_entries b nd).
+  Proof.
+    intros HI Hin. unfold dump_node, node_entries in *.
+    destruct (dump_ops_ok (n_ops nd) st HI) as (st1 & E1 & I1 & X1 & H1); [intros x Hx; apply Hin, in_or_app; now left|].
+    rewrite E1.
+    destruct (add_ok (n_name nd) (ENode b (map (fun ou => o_name (fst ou)) (n_ops nd))) st1 I1) as (st2 & E2 & I2 & X2 & A2);
+      [apply Hin, in_or_app; right; now left|].
+    rewrite E2. exists st2. repeat split; auto.
+    - eapply ext_trans; eassumption.
+    - apply holds_app; [eapply holds_ext; eassumption|]. intros k d [Hk|[]]. now injection Hk as <- <-.
+  Qed.
+
+  Definition nodes_entries (l : list (str * nodeT)) := flat_map (fun kn => node_entries false (snd kn)) l.
+
+  Lemma dump_nodes_ok : forall l st, Inv st E -> incl (nodes_entries l) E ->
+    exists st', dump_nodes l st = (keyed_names n_name l, st') /\ Inv st' E /\ ext st st' /\ holds st' (nodes_entries l).
+  Proof.
+    induction l as [|[key nd] l IH]; intros st HI Hin.
+    - exists st. repeat split; auto using ext_refl, holds_nil.
+    - cbn [dump_nodes]. unfold nodes_entries in *. cbn [flat_map snd] in *.
+      destruct (dump_node_ok false nd st HI) as (st1 & E1 & I1 & X1 & H1); [intros x Hx; apply Hin, in_or_app; now left|].
+      rewrite E1. destruct (IH st1 I1) as (st2 & E2 & I2 & X2 & H2); [intros x Hx; apply Hin, in_or_app; now right|].
+      rewrite E2. exists st2. repeat split; auto.
+      + eapply ext_trans; eassumption.
+      + apply holds_app; [eapply holds_ext; eassumption|exact H2].
+  Qed.
+
+  Lemma dump_edge_ok e st : Inv st E -> incl (edge_entries e) E ->
+    exists st', dump_edge e st = (pure_edge e, st') /\ Inv st' E /\ ext st st' /\ holds st' (edge_entries e).
+  Proof.
+    intros HI Hin. unfold dump_edge, pure_edge, edge_entries in *. destruct (ed_tpl e) as [t|].
+    - destruct (dump_node_ok true t st HI Hin) as (st1 & E1 & I1 & X1 & H1). rewrite E1. exists st1. repeat split; auto.
+    - exists st. repeat split; auto using ext_refl, holds_nil.
+  Qed.
+
+  Lemma dump_edges_ok : forall l st, Inv st E -> incl (flat_map edge_entries l) E ->
+    exists st', dump_edges l st = (map pure_edge l, st') /\ Inv st' E /\ ext st st' /\ holds st' (flat_map edge_entries l).
+  Proof.
+    induction l as [|e l IH]; intros st HI Hin.
+    - exists st. repeat split; auto using ext_refl, holds_nil.
+    - cbn [dump_edges flat_map map] in *.
+      destruct (dump_edge_ok e st HI) as (st1 & E1 & I1 & X1 & H1); [intros x Hx; apply Hin, in_or_app; now left|].
+      rewrite E1. destruct (IH st1 I1) as (st2 & E2 & I2 & X2 & H2); [intros x Hx; apply Hin, in_or_app; now right|].
+      rewrite E2. exists st2. repeat split; auto.
+      + eapply ext_trans; eassumption.
+      + apply holds_app; [eapply holds_ext; eassumption|exact H2].
+  Qed.
+
+  Lemma dump_flat_ok f st : Inv st E -> incl (flat_entries f) E ->
+    exists st', dump_flat f st = (f_name f, st') /\ Inv st' E /\ ext st st' /\ holds st' (flat_entries f).
+  Proof.
+    intros HI Hin. unfold dump_flat, flat_entries in *.
+    destruct (dump_nodes_ok (f_nodes f) st HI) as (st1 & E1 & I1 & X1 & H1); [intros x Hx; apply Hin, in_or_app; now left|].
+    rewrite E1.
+    destruct (dump_edges_ok (f_edges f) st1 I1) as (st2 & E2 & I2 & X2 & H2); [intros x Hx; apply Hin, in_or_app; right; apply in_or_app; now left|].
+    rewrite E2.
+    destruct (add_ok (f_name f) (ECirc [] (keyed_names n_name (f_nodes f)) (map pure_edge (f_edges f))) st2 I2) as (st3 & E3 & I3 & X3 & A3);
+      [apply Hin, in_or_app; right; apply in_or_app; right; now left|].
+    rewrite E3. exists st3. repeat split; auto.
+    - eapply ext_trans; [eassumption|]. eapply ext_trans; eassumption.
+    - apply holds_app; [eapply holds_ext; [exact H1|eapply ext_trans; eassumption]|].
+      apply holds_app; [eapply holds_ext; eassumption|]. intros k d [Hk|[]]. now injection Hk as <- <-.
+  Qed.
+
+  Lemma dump_subs_ok : forall l st, Inv st E -> incl (flat_map (fun kf => flat_entries (snd kf)) l) E ->
+    exists st', dump_subs l st = (keyed_names f_name l, st') /\ Inv st' E /\ ext st st' /\ holds st' (flat_map (fun kf => flat_entries (snd kf)) l).
+  Proof.
+    induction l as [|[key f] l IH]; intros st HI Hin.
+    - exists st. repeat split; auto using ext_refl, holds_nil.
+    - cbn [dump_subs flat_map snd] in *.
+      destruct (dump_flat_ok f st HI) as (st1 & E1 & I1 & X1 & H1); [intros x Hx; apply Hin, in_or_app; now left|].
+      rewrite E1. destruct (IH st1 I1) as (st2 & E2 & I2 & X2 & H2); [intros x Hx; apply Hin, in_or_app; now right|].
+      rewrite E2. exists st2. repeat split; auto.
+      + eapply ext_trans; eassumption.
+      + apply holds_app; [eapply holds_ext; eassumption|exact H2].
+  Qed.
+End Guarded.
+
+Theorem dump_pure c : no_rename c = true ->
+  exists st, dump c = (c_name c, st) /\ holds st (circ_entries c).
+Proof.
+  intro Hc. apply consistent_P in Hc. set (E := circ_entries c) in *.
+  assert (HI : Inv [] E) by (intros k d H; discriminate).
+  unfold dump, dump_circ.
+  assert (Hall : incl (circ_entries c) E) by apply incl_refl. unfold circ_entries in Hall.
+  destruct (dump_subs_ok E Hc (c_subs c) [] HI) as (st1 & E1 & I1 & X1 & H1); [intros x Hx; apply Hall, in_or_app; now left|].
+  rewrite E1.
+  assert (Hn : exists st2, (match c_subs c with [] => dump_nodes (c_nodes c) st1 | _ => ([], st1) end) = (keyed_names n_name (own_nodes c), st2)
+            /\ Inv st2 E /\ ext st1 st2 /\ holds st2 (nodes_entries (own_nodes c))).
+  { unfold own_nodes in *. destruct (c_subs c).
+    - apply dump_nodes_ok; auto. intros x Hx. apply Hall, in_or_app. right. apply in_or_app. now left.
+    - exists st1. repeat split; auto using ext_refl, holds_nil. }
+  destruct Hn as (st2 & E2 & I2 & X2 & H2). rewrite E2.
+  destruct (dump_edges_ok E Hc (c_edges c) st2 I2) as (st3 & E3 & I3 & X3 & H3);
+    [intros x Hx; apply Hall, in_or_app; right; apply in_or_app; right; apply in_or_app; now left|].
+  rewrite E3.
+  destruct (add_ok E Hc (c_name c) (ECirc (keyed_names f_name (c_subs c)) (keyed_names n_name (own_nodes c)) (map pure_edge (c_edges c))) st3 I3)
+    as (st4 & E4 & I4 & X4 & A4); [apply Hall, in_or_app; right; apply in_or_app; right; apply in_or_app; right; now left|].
+  rewrite E4. exists st4. split; [reflexivity|].
+  unfold circ_entries. apply holds_app; [eapply holds_ext; [exact H1|]; eauto using ext_trans|].
+  apply holds_app; [eapply holds_ext; [exact H2|]; eauto using ext_trans|].
+  apply holds_app; [eapply holds_ext; eassumption|]. intros k d [Hk|[]]. now injection Hk as <- <-.
+Qed.
+
+(* ---------- an operator written with its overrides merged in, read back without overrides ---------- *)
+Lemma override_nil kv : override [] kv = kv.
+Proof. destruct kv as [k [t x]]. reflexivity. Qed.
+
+Lemma assoc_notin {V} : forall (m : list (str * V)) k, existsb (str_eqb k) (map fst m) = false -> assoc k m = None.
+Proof.
+  induction m as [|[k0 v0] m IH]; intros k H; [reflexivity|]. cbn in *. apply orb_false_elim in H as [H1 H2].
+  rewrite H1. now apply IH.
+Qed.
+
+Lemma override_notin k y : forall vs, existsb (str_eqb k) (map fst vs) = false -> map (override [(k, y)]) vs = vs.
+Proof.
+  induction vs as [|[k0 [t0 x0]] vs IH]; intro H; [reflexivity|]. cbn in H. apply orb_false_elim in H as [H1 H2].
+  cbn [map]. rewrite IH by exact H2. f_equal. unfold override. cbn [fst snd assoc].
+  rewrite str_eqb_sym, H1. reflexivity.
+Qed.
+
+Lemma set_assoc_override : forall vars k y x0, nodupb (map fst vars) = true -> assoc k vars = Some (VConst, x0) ->
+  set_assoc k (VConst, y) vars = map (override [(k, y)]) vars.
+Proof.
+  induction vars as [|[k0 [t0 x1]] vars IH]; intros k y x0 Hn Ha; [discriminate|].
+  cbn [map fst nodupb] in Hn. apply andb_prop in Hn as [Hn1 Hn2]. apply negb_true_iff in Hn1.
+  cbn [set_assoc assoc map] in *. destruct (str_eqb k k0) eqn:Ek.
+  - apply str_eqb_eq in Ek. subst k0. injection Ha as -> ->. rewrite (override_notin k y vars Hn1).
+    f_equal. unfold override. cbn [fst snd assoc]. now rewrite str_eqb_refl.
+  - f_equal.
+    + unfold override. cbn [fst snd assoc]. rewrite str_eqb_sym, Ek. reflexivity.
+    + eapply IH; eassumption.
+Qed.
+
+Lemma map_fst_override w vars : map fst (map (override w) vars) = map fst vars.
+Proof. rewrite map_map. apply map_ext. now intros [k [t x]]. Qed.
+
+Lemma assoc_map_override w : forall vars k,
+  assoc k (map (override w) vars) =
+  match assoc k vars with Some (t, x) => Some (t, match assoc k w with Some y => y | None => x end) | None => None end.
+Proof.
+  induction vars as [|[k0 [t0 x0]] vars IH]; intros k; [reflexivity|]. cbn [map assoc override fst snd].
+  destruct (str_eqb k k0) eqn:Ek; [|apply IH]. apply str_eqb_eq in Ek. now subst.
+Qed.
+
+Definition const_in (vars : list (str * vspec)) (u : upd) : bool :=
+  forallb (fun kv => match assoc (fst kv) vars with Some (VConst, _) => true | _ => false end) u.
+
+Lemma merge_override : forall u vars, nodupb (map fst vars) = true -> nodupb (map fst u) = true -> const_in vars u = true ->
+  merge_vars vars u = map (override u) vars.
+Proof.
+  unfold merge_vars. induction u as [|[k y] u IH]; intros vars Hv Hu Hc.
+  - cbn [fold_left]. rewrite (map_ext _ (fun kv => kv)) by apply override_nil. now rewrite map_id.
+  - cbn [fold_left fst snd]. cbn [map fst nodupb] in Hu. apply andb_prop in Hu as [Hu1 Hu2]. apply negb_true_iff in Hu1.
+    unfold const_in in Hc. cbn [forallb fst] in Hc. apply andb_prop in Hc as [Hc1 Hc2].
+    destruct (assoc k vars) as [[[] x0]|] eqn:Ea; try discriminate.
+    rewrite (set_assoc_override vars k y x0 Hv Ea).
+    rewrite IH.
+    + rewrite map_map. apply map_ext. intros [k0 [t0 x1]]. unfold override. cbn [fst snd assoc]. f_equal. f_equal.
+      destruct (str_eqb k0 k) eqn:E0; [|reflexivity]. apply str_eqb_eq in E0. subst k0. now rewrite (assoc_notin u k Hu1).
+    + now rewrite map_fst_override.
+    + exact Hu2.
+    + unfold const_in. rewrite forallb_forall in *. intros kv Hkv. specialize (Hc2 kv Hkv). rewrite assoc_map_override.
+      destruct (assoc (fst kv) vars) as [[[] x2]|]; try discriminate. reflexivity.
+Qed.
+
+(* node-level guards *)
+Definition G (nd : nodeT) : Prop := forallb op_wf (n_ops nd) = true /\ forallb const_upd (n_ops nd) = true.
+
+Lemma denote_op_merged ou : op_wf ou = true -> const_upd ou = true ->
+  denote_op (mkOp (o_name (fst ou)) (o_eqs (fst ou)) (merge_vars (o_vars (fst ou)) (snd ou)), []) = denote_op ou.
+Proof.
+  intros Hw Hc. unfold op_wf in Hw. apply andb_prop in Hw as [H1 H2]. unfold denote_op. cbn [fst snd o_name o_eqs o_vars].
+  f_equal. rewrite (map_ext _ (fun kv => kv)) by apply override_nil. rewrite map_id. now apply merge_override.
+Qed.
+
+(* ---------- load ---------- *)
+Section Loaded.
+  Variable st : store.
+
+  Definition mk_loaded (ou : opT * upd) : opT := mkOp (o_name (fst ou)) (o_eqs (fst ou)) (merge_vars (o_vars (fst ou)) (snd ou)).
+
+  Lemma load_ops_ok : forall l, holds st (map (fun ou => (o_name (fst ou), op_entry (fst ou) (snd ou))) l) ->
+    mapM (load_op st) (map (fun ou => o_name (fst ou)) l) = Some (map mk_loaded l).
+  Proof.
+    induction l as [|ou l IH]; intro H; [reflexivity|]. cbn [map mapM].
+    unfold load_op at 1. rewrite (H _ _ (or_introl eq_refl)). unfold op_entry. cbn [obind].
+    rewrite IH by (intros k d Hi; apply H; now right). reflexivity.
+  Qed.
+
+  Lemma load_node_ok b nd : holds st (node_entries b nd) -> G nd ->
+    exists nd', load_node b st (n_name nd) = Some nd' /\ denote_node nd' = denote_node nd.
+  Proof.
+    intros H [Hw Hc]. unfold node_entries in H. unfold load_node.
+    assert (Hk : assoc (n_name nd) st = Some (ENode b (map (fun ou => o_name (fst ou)) (n_ops nd)))) by (apply H, in_or_app; right; now left).
+    rewrite Hk.
+    rewrite Bool.eqb_reflx. rewrite load_ops_ok by (intros k d Hi; apply H, in_or_app; now left). cbn [obind].
+    eexists. split; [reflexivity|]. unfold denote_node. cbn [n_ops]. rewrite !map_map.
+    apply map_ext_in. intros ou Hou. rewrite forallb_forall in Hw, Hc. cbn [fst snd]. apply denote_op_merged; auto.
+  Qed.
+
+  Lemma load_nodes_ok : forall l, holds st (flat_map (fun kn => node_entries false (snd kn)) l) -> (forall kn, In kn l -> G (snd kn)) ->
+    exists l', load_keyed (load_node false st) (keyed_names n_name l) = Some l' /\ forall pre, denote_nodes pre l' = denote_nodes pre l.
+  Proof.
+    induction l as [|[key nd] l IH]; intros H HG.
+    - exists []. split; reflexivity.
+    - cbn [flat_map snd] in H. unfold load_keyed, keyed_names in *. cbn [map mapM fst snd].
+      destruct (load_node_ok false nd) as (nd' & E1 & D1); [intros k d Hi; apply H, in_or_app; now left|apply (HG (key, nd)); now left|].
+      rewrite E1. cbn [obind].
+      destruct IH as (l' & E2 & D2); [intros k d Hi; apply H, in_or_app; now right|intros kn Hk; apply HG; now right|].
+      rewrite E2. cbn [obind]. eexists. split; [reflexivity|]. intro pre. unfold denote_nodes in *. cbn [map fst snd]. now rewrite D1, D2.
+  Qed.
+
+  Lemma load_edges_ok : forall l, holds st (flat_map edge_entries l) -> (forall e t, In e l -> ed_tpl e = Some t -> G t) ->
+    exists l', mapM (load_edge st) (map pure_edge l) = Some l' /\ forall pre, map (denote_edge pre) l' = map (denote_edge pre) l.
+  Proof.
+    induction l as [|e l IH]; intros H HG.
+    - exists []. split; reflexivity.
+    - cbn [flat_map map mapM] in *.
+      destruct IH as (l' & E2 & D2); [intros k d Hi; apply H, in_or_app; now right|intros e' t Hi; apply HG; now right|].
+      assert (Hhd : holds st (edge_entries e)) by (intros k d Hi; apply H, in_or_app; now left).
+      unfold edge_entries in Hhd. unfold load_edge at 1. unfold pure_edge at 1.
+      destruct (ed_tpl e) as [t|] eqn:Et; cbn [option_map].
+      + destruct (load_node_ok true t) as (nd' & E1 & D1); [exact Hhd|apply (HG e t); [now left|exact Et]|].
+        rewrite E1. cbn [obind]. rewrite E2. cbn [obind]. eexists. split; [reflexivity|]. intro pre. cbn [map]. rewrite D2. f_equal.
+        unfold denote_edge. cbn [ed_src ed_tgt ed_tpl ed_attrs option_map]. now rewrite Et, D1.
+      + cbn [obind]. rewrite E2. cbn [obind]. eexists. split; [reflexivity|]. intro pre. cbn [map]. rewrite D2. f_equal.
+        unfold denote_edge. cbn [ed_src ed_tgt ed_tpl ed_attrs option_map]. now rewrite Et.
+  Qed.
+
+  Definition Gflat (f : flatC) : Prop := (forall kn, In kn (f_nodes f) -> G (snd kn)) /\ (forall e t, In e (f_edges f) -> ed_tpl e = Some t -> G t).
+
+  Lemma load_flat_ok f : holds st (flat_entries f) -> Gflat f ->
+    exists f', load_flat st (f_name f) = Some f' /\ forall pre, denote_flat pre f' = denote_flat pre f.
+  Proof.
+    intros H [Gn Ge]. unfold flat_entries in H. unfold load_flat.
+    assert (Hk : assoc (f_name f) st = Some (ECirc [] (keyed_names n_name (f_nodes f)) (map pure_edge (f_edges f))))
+      by (apply H, in_or_app; right; apply in_or_app; right; now left).
+    rewrite Hk.
+    destruct (load_nodes_ok (f_nodes f)) as (ns & E1 & D1); [intros k d Hi; apply H, in_or_app; now left|exact Gn|].
+    destruct (load_edges_ok (f_edges f)) as (es & E2 & D2); [intros k d Hi; apply H, in_or_app; right; apply in_or_app; now left|exact Ge|].
+    rewrite E1. cbn [obind]. rewrite E2. cbn [obind]. eexists. split; [reflexivity|]. intro pre. unfold denote_flat. cbn [f_nodes f_edges].
+    now rewrite D1, D2.
+  Qed.
+
+  Lemma load_subs_ok : forall l, holds st (flat_map (fun kf => flat_entries (snd kf)) l) -> (forall kf, In kf l -> Gflat (snd kf)) ->
+    exists l', load_keyed (load_flat st) (keyed_names f_name l) = Some l' /\
+               map (fun kf => denote_flat (fst kf ++ slash) (snd kf)) l' = map (fun kf => denote_flat (fst kf ++ slash) (snd kf)) l /\
+               (l' = [] <-> l = []).
+  Proof.
+    induction l as [|[key f] l IH]; intros H HG.
+    - exists []. repeat split; auto.
+    - cbn [flat_map snd] in H. unfold load_keyed, keyed_names in *. cbn [map mapM fst snd].
+      destruct (load_flat_ok f) as (f' & E1 & D1); [intros k d Hi; apply H, in_or_app; now left|apply (HG (key, f)); now left|].
+      rewrite E1. cbn [obind].
+      destruct IH as (l' & E2 & D2 & _); [intros k d Hi; apply H, in_or_app; now right|intros kn Hk; apply HG; now right|].
+      rewrite E2. cbn [obind]. eexists. split; [reflexivity|]. split; [cbn [map fst snd]; now rewrite D1, D2|]. split; discriminate.
+  Qed.
+End Loaded.
+
+(* ---------- the round trip ---------- *)
+Lemma G_all c : dicts_wf c = true -> const_overrides c = true -> forall nd, In nd (all_nodes c) -> G nd.
+Proof. unfold dicts_wf, const_overrides. rewrite !forallb_forall. intros H1 H2 nd Hi. split; auto. Qed.
+
+Lemma tpl_in e t l : In e l -> ed_tpl e = Some t -> In t (flat_map (fun e => match ed_tpl e with Some t => [t] | None => [] end) l).
+Proof. intros Hi Et. apply in_flat_map. exists e. split; [exact Hi|]. rewrite Et. now left. Qed.
+
+Theorem load_dump c : WFy c = true -> option_map denote (roundtrip c) = Some (denote c).
+Proof.
+  unfold WFy. intro H. apply andb_prop in H as [H Hc]. apply andb_prop in H as [Hw Hr].
+  pose proof (G_all c Hw Hc) as HG.
+  destruct (dump_pure c Hr) as (st & Ed & Hh). unfold roundtrip. rewrite Ed. cbn [snd].
+  unfold circ_entries in Hh. unfold load_circ.
+  assert (Hk : assoc (c_name c) st = Some (ECirc (keyed_names f_name (c_subs c)) (keyed_names n_name (own_nodes c)) (map pure_edge (c_edges c))))
+    by (apply Hh, in_or_app; right; apply in_or_app; right; apply in_or_app; right; now left).
+  rewrite Hk.
+  destruct (load_subs_ok st (c_subs c)) as (ss & E1 & D1 & N1).
+  { intros k d Hi. apply Hh, in_or_app. now left. }
+  { intros [key f] Hkf. split.
+    - intros kn Hkn. apply HG. unfold all_nodes. apply in_or_app. left. apply in_flat_map. exists (key, f). split; [exact Hkf|].
+      cbn [snd]. apply in_or_app. left. now apply in_map.
+    - intros e t Hi Et. apply HG. unfold all_nodes. apply in_or_app. left. apply in_flat_map. exists (key, f). split; [exact Hkf|].
+      cbn [snd]. apply in_or_app. right. eapply tpl_in; eassumption. }
+  destruct (load_nodes_ok st (own_nodes c)) as (ns & E2 & D2).
+  { intros k d Hi. apply Hh, in_or_app. right. apply in_or_app. now left. }
+  { intros kn Hkn. apply HG. unfold all_nodes. apply in_or_app. right. apply in_or_app. left. now apply in_map. }
+  destruct (load_edges_ok st (c_edges c)) as (es & E3 & D3).
+  { intros k d Hi. apply Hh, in_or_app. right. apply in_or_app. right. apply in_or_app. now left. }
+  { intros e t Hi Et. apply HG. unfold all_nodes. apply in_or_app. right. apply in_or_app. right. eapply tpl_in; eassumption. }
+  rewrite E1. cbn [obind]. rewrite E2. cbn [obind]. rewrite E3. cbn [obind option_map]. f_equal.
+  unfold denote. cbn [c_subs c_nodes c_edges]. unfold own_nodes in D2.
+  destruct (c_subs c) as [|kf l] eqn:Es.
+  - destruct ss as [|x ss]; [|destruct N1 as [_ N1]; specialize (N1 eq_refl); discriminate]. now rewrite D2, D3.
+  - destruct ss as [|x ss]; [destruct N1 as [N1 _]; specialize (N1 eq_refl); discriminate|]. now rewrite D1, D3.
+Qed.
+
+(* the inverse direction of the guards, by computation: each guard is needed *)
+Definition S := Coq.Strings.String.list_ascii_of_string.
+Section Witnesses.
+  Import Coq.Strings.String.
+  Local Open Scope string_scope.
+  Definition w_opa : opT := mkOp (S "opa") [S "d/dt * r = -k*r + r_in"] [(S "r", (VOut, 4%Z)); (S "k", (VConst, 16%Z)); (S "r_in", (VIn, 0%Z))].
+  Definition w_opb : opT := mkOp (S "opb") [S "d/dt * v = r*c - v"; S "m = 3*v"]
+    [(S "v", (VState, 2%Z)); (S "c", (VConst, 12%Z)); (S "r", (VIn, 0%Z)); (S "m", (VOut, 0%Z))].
+  Definition w_node (k : Z) : nodeT := mkNode (S "n") [(w_opa, [(S "k", k)])].
+  (* D10c: two variants of one name *)
+  Definition w_rename : circ := mkCirc (S "net") [] [(S "a", w_node 24); (S "b", w_node 40)]
+    [mkEdge (S "a/opa/r") (S "b/opa/r_in") None [(S "weight", 16%Z)]].
+  (* D33: three variants *)
+  Definition w_three : circ := mkCirc (S "net") [] [(S "a", w_node 24); (S "b", w_node 40); (S "c", w_node 16)] [].
+  (* D10d: override of an output variable *)
+  Definition w_kind : circ := mkCirc (S "net") [] [(S "a", mkNode (S "n") [(w_opa, [(S "r", 2%Z)]); (w_opb, [])])] [].
+  (* inside all guards: shared operator, the same override on both nodes, hierarchy, edge template *)
+  Definition w_eop : opT := mkOp (S "eop") [S "m_out = g*x_in*x_in"] [(S "m_out", (VOut, 0%Z)); (S "x_in", (VIn, 0%Z)); (S "g", (VConst, 16%Z))].
+  Definition w_et : nodeT := mkNode (S "et") [(w_eop, [(S "g", 4%Z)])].
+  Definition w_flat : flatC := mkFlat (S "sub") [(S "a", w_node 24); (S "b", w_node 24)]
+    [mkEdge (S "a/opa/r") (S "b/opa/r_in") (Some w_et) [(S "weight", 8%Z)]].
+  Definition w_ok : circ := mkCirc (S "top") [(S "s1", w_flat); (S "s2", w_flat)] []
+    [mkEdge (S "s1/a/opa/r") (S "s2/b/opa/r_in") None [(S "weight", 2%Z)]].
+End Witnesses.
+
+Definition load_dump_statement (c : circ) : Prop := option_map denote (roundtrip c) = Some (denote c).
+
+Lemma den_eqb_eq a b : den_eqb a b = true -> a = b.
+Proof.
+  destruct a as [n1 e1], b as [n2 e2]. unfold den_eqb. cbn [fst snd]. intro H. apply andb_prop in H as [H1 H2].
+  assert (Hdv : forall x y, dvar_eqb x y = true -> x = y) by (apply pair_eqb_eq; [apply str_eqb_true|apply vspec_eqb_eq]).
+  assert (Hdo : forall x y, dop_eqb x y = true -> x = y).
+  { intros [[a1 b1] c1] [[a2 b2] c2] H. cbn in H. apply andb_prop in H as [H H3]. apply andb_prop in H as [Ha Hb].
+    apply str_eqb_true in Ha. apply (list_eqb_eq _ str_eqb_true) in Hb. apply (list_eqb_eq _ Hdv) in H3. now subst. }
+  assert (Hdn : forall x y, dnode_eqb x y = true -> x = y) by (apply list_eqb_eq; exact Hdo).
+  assert (Hde : forall x y, dedge_eqb x y = true -> x = y).
+  { intros [[[s1 t1] k1] a1] [[[s2 t2] k2] a2] H. cbn in H. apply andb_prop in H as [H H4]. apply andb_prop in H as [H H3].
+    apply andb_prop in H as [Ha Hb]. apply str_eqb_true in Ha, Hb. apply (opt_eqb_eq _ Hdn) in H3. apply (list_eqb_eq _ zpair_eq) in H4. now subst. }
+  apply (list_eqb_eq _ (pair_eqb_eq _ _ str_eqb_true Hdn)) in H1. apply (list_eqb_eq _ Hde) in H2. now subst.
+Qed.
+
+Lemma roundtrip_ok_false c : roundtrip_ok c = false -> ~ load_dump_statement c.
+Proof.
+  unfold roundtrip_ok, load_dump_statement. destruct (roundtrip c) as [c'|]; cbn [option_map]; [|discriminate].
+  intros H E. injection E as E. rewrite E in H.
+  assert (R : den_eqb (denote c) (denote c) = true).
+  { clear. assert (Hdv : forall x, dvar_eqb x x = true) by (apply pair_eqb_refl; [apply str_eqb_refl|apply vspec_eqb_refl]).
+    assert (Hdo : forall x, dop_eqb x x = true).
+    { intros [[a b] v]. cbn. rewrite str_eqb_refl, (list_eqb_refl _ str_eqb_refl). cbn. now apply list_eqb_refl. }
+    assert (Hdn : forall x, dnode_eqb x x = true) by (apply list_eqb_refl; exact Hdo).
+    assert (Hde : forall x, dedge_eqb x x = true).
+    { intros [[[s t] k] a]. cbn. rewrite !str_eqb_refl, (opt_eqb_refl _ Hdn). cbn. apply list_eqb_refl, pair_eqb_refl; [apply str_eqb_refl|apply Z.eqb_refl]. }
+    unfold den_eqb. rewrite (list_eqb_refl _ (pair_eqb_refl _ _ str_eqb_refl Hdn)). cbn. now apply list_eqb_refl. }
+  congruence.
+Qed.
+
+Theorem load_dump_refuted_rename : exists c, dicts_wf c = true /\ const_overrides c = true /\ variants_le2 c = true /\ ~ load_dump_statement c.
+Proof. exists w_rename. repeat split; try (vm_compute; reflexivity). apply roundtrip_ok_false. vm_compute. reflexivity. Qed.
+Theorem load_dump_refuted_three : exists c, dicts_wf c = true /\ const_overrides c = true /\ variants_le2 c = false /\ ~ load_dump_statement c.
+Proof. exists w_three. repeat split; try (vm_compute; reflexivity). apply roundtrip_ok_false. vm_compute. reflexivity. Qed.
+Theorem load_dump_refuted_kind : exists c, dicts_wf c = true /\ no_rename c = true /\ const_overrides c = false /\ ~ load_dump_statement c.
+Proof. exists w_kind. repeat split; try (vm_compute; reflexivity). apply roundtrip_ok_false. vm_compute. reflexivity. Qed.
+Theorem load_dump_nonvacuous : WFy w_ok = true /\ roundtrip_ok w_ok = true /\ List.length (fst (denote w_ok)) = 4.
+Proof. repeat split; vm_compute; reflexivity. Qed.
+
+(* D33 in the model: the second variant's key is handed out again and its dict is overwritten *)
+Theorem add_to_dict_num1_twice : forall name d1 d2 d3 st, assoc name st = Some d1 ->
+  entry_eqs d1 d2 || entry_eqb d1 d2 = false -> entry_eqs d1 d3 || entry_eqb d1 d3 = false ->
+  let (k2, st2) := add_to_dict name d2 st in
+  let (k3, st3) := add_to_dict name d3 st2 in
+  k2 = k3 /\ (str_eqb name (name ++ num1) = false -> assoc k2 st3 = Some d3).
+Proof.
+  intros name d1 d2 d3 st Ha H2 H3. unfold add_to_dict. rewrite Ha, H2.
+  rewrite assoc_set. destruct (str_eqb name (name ++ num1)) eqn:En.
+  - apply str_eqb_eq in En. exfalso. apply (f_equal (@List.length ascii)) in En. rewrite app_length in En. cbn in En. lia.
+  - rewrite Ha, H3. split; [reflexivity|]. intros _. rewrite assoc_set, str_eqb_refl. reflexivity.
+Qed.
+
+Print Assumptions load_dump.
+Print Assumptions load_dump_refuted_three.
